@@ -627,7 +627,7 @@ func dischargeAll(obls []*Obligation, o solveOpts, workers int, keepDir string) 
 	}
 	ch2 := make(chan *Obligation)
 	var wg2 sync.WaitGroup
-	for i := 0; i < 4; i++ {
+	for i := 0; i < 3; i++ {
 		wg2.Add(1)
 		go func() {
 			defer wg2.Done()
@@ -635,6 +635,7 @@ func dischargeAll(obls []*Obligation, o solveOpts, workers int, keepDir string) 
 				oo := o
 				oo.KeepDir = keepDir
 				oo.TimeoutS = o.TimeoutS * 4
+				oo.AllSeeds = true
 				first := ob.Result.Secs
 				r := solve(ob.Name, queries[ob], oo)
 				r.Secs += first
